@@ -98,6 +98,7 @@ func cmdC01Gen(args []string) {
 	caseFile := fs.String("cases", "", "cases written by TLC")
 	out := fs.String("out", "", "summary JSON")
 	replayDir := fs.String("replaydir", "", "directory for replay files")
+	roundtrip := fs.Bool("roundtrip", false, "C06: also rebuild a middleware from Config() and compare every probe verdict (real vs real)")
 	fs.Parse(args)
 
 	var uni struct {
@@ -114,12 +115,16 @@ func cmdC01Gen(args []string) {
 		cases = append(cases, c)
 	})
 	seed := seedFromEnv()
+	// mismatches are also appended to <out>.partial as they are found, so that they survive a later crash of the process
+	partial, _ := os.Create(*out + ".partial")
+	defer partial.Close()
 
 	var (
-		evals, nontrivial, rejected, elemsDrift atomic.Int64
-		mu                                      sync.Mutex
-		mismatches                              []c01Mismatch
-		samples                                 []any
+		evals, nontrivial, rejected, elemsDrift, rtCases atomic.Int64
+		mu                                               sync.Mutex
+		mismatches                                       []c01Mismatch
+		rtMismatches                                     []map[string]any
+		samples                                          []any
 	)
 	letters := "abcdefghijklmnopqrstuvwxyz"
 	schemePairs := [][2]string{{"https", "http"}, {"http", "https"}, {"foo", "foobar"}, {"a-b.c+d", "https"}, {"http", "htt"}, {"wss", "ws"}}
@@ -204,6 +209,23 @@ func cmdC01Gen(args []string) {
 					elemsDrift.Add(1)
 				}
 				h := m.Wrap(okHandler)
+				var h2 http.Handler
+				if *roundtrip {
+					rtCases.Add(1)
+					rendered := m.Config()
+					m2, err2 := cors.NewMiddleware(*rendered)
+					err3 := m.Reconfigure(m.Config())
+					if err2 != nil || err3 != nil {
+						mu.Lock()
+						if len(rtMismatches) < 30 {
+							rtMismatches = append(rtMismatches, map[string]any{"patterns": pats, "rendered": rendered.Origins,
+								"why": fmt.Sprintf("NewMiddleware(*Config()) error: %v; Reconfigure(Config()) error: %v", err2, err3)})
+						}
+						mu.Unlock()
+					} else {
+						h2 = m2.Wrap(okHandler)
+					}
+				}
 				want := make(map[int]bool, len(c.V))
 				for _, v := range c.V {
 					want[v] = true
@@ -213,10 +235,27 @@ func cmdC01Gen(args []string) {
 					act, pf := originAllowedByMiddleware(h, o)
 					evals.Add(1)
 					exp := want[j+1]
+					if h2 != nil {
+						// after Reconfigure(Config()) the original must answer as before (= exp), and the rebuilt one alike
+						act2, pf2 := originAllowedByMiddleware(h2, o)
+						if act2 != act || pf2 != pf {
+							mu.Lock()
+							if len(rtMismatches) < 30 {
+								rtMismatches = append(rtMismatches, map[string]any{"patterns": pats, "origin": o,
+									"why": fmt.Sprintf("middleware rebuilt from Config(): allowed=%v/%v, original (after Reconfigure(Config())): %v/%v", act2, pf2, act, pf)})
+							}
+							mu.Unlock()
+						}
+					}
 					if act != exp || pf != exp {
 						mu.Lock()
 						if len(mismatches) < 50 {
-							mismatches = append(mismatches, c01Mismatch{c, pats, o, exp, act, pf})
+							mm := c01Mismatch{c, pats, o, exp, act, pf}
+							mismatches = append(mismatches, mm)
+							if b, err := json.Marshal(mm); err == nil && partial != nil {
+								partial.Write(append(b, '\n'))
+								partial.Sync()
+							}
 						}
 						mu.Unlock()
 					}
@@ -246,6 +285,8 @@ func cmdC01Gen(args []string) {
 		"elems_drift":  elemsDrift.Load(),
 		"mismatches":   mismatches,
 		"n_mismatches": len(mismatches),
+		"rt_cases":     rtCases.Load(),
+		"rt_mismatches": rtMismatches,
 		"samples":      samples,
 	})
 }
